@@ -10,8 +10,9 @@
 //! range is not reused until far more memory than one run ever frees
 //! (8192 blocks / 96 MiB) has been freed after it, so within a run "address
 //! inside a live chunk" is the same as "memory still owned by that chunk",
-//! on every execution.  Parked memory also stays mapped, so an oracle that
-//! looks at a stale slice reads stale bytes instead of crashing.
+//! on every execution.  Parked memory stays mapped and is overwritten with a
+//! poison byte, so an oracle that looks at a stale slice reads poison - never
+//! the old contents, never another object's data - instead of crashing.
 //!
 //! Off under Miri (which tracks allocations itself) and in the
 //! AddressSanitizer build (`--cfg simw_no_quarantine`: ASan has its own
@@ -24,6 +25,7 @@ const SLOTS: usize = 8192;
 const MAX_BYTES: usize = 96 << 20;
 const MIN_BLOCK: usize = 4096;
 const MAX_BLOCK: usize = 8 << 20;
+const POISON: u8 = 0xDE;
 
 struct Ring {
     head: usize,
@@ -78,6 +80,9 @@ unsafe impl GlobalAlloc for Quarantine {
         if !Self::parks(&layout) {
             return System.dealloc(ptr, layout);
         }
+        // Poisoned, so that a read through a stale pointer cannot return what
+        // used to be there (and returns the same thing on every execution).
+        std::ptr::write_bytes(ptr, POISON, layout.size());
         let mut pushed = false;
         while !pushed {
             // Blocks leave in batches, freed outside the lock.
